@@ -19,11 +19,12 @@ use grin_core::core::hash::Hash;
 use grin_core::core::merkle_proof::MerkleProof;
 use grin_core::core::pmmr::segment::{Segment, SegmentIdentifier, SegmentProof};
 use grin_core::core::{
+	BlockHeader, HeaderVersion, Output,
 	KernelFeatures, OutputIdentifier, Transaction, TxKernel, UntrustedBlock, UntrustedBlockHeader,
 	UntrustedCompactBlock,
 };
 use grin_core::global::{self, ChainTypes};
-use grin_core::pow::Difficulty;
+use grin_core::pow::{Difficulty, Proof, ProofOfWork};
 use grin_core::ser::{
 	self, BufReader, DeserializationMode, ProtocolVersion, Readable, Writeable,
 };
@@ -34,6 +35,9 @@ use grin_p2p::msg::{
 };
 use grin_p2p::types::{Capabilities, PeerAddr, ReasonForBan};
 use grin_util::secp::pedersen::RangeProof;
+use grin_keychain::BlindingFactor;
+use grin_p2p::msg::Type;
+use grin_p2p::verif_export::Codec;
 use gvharness::*;
 use std::alloc::{GlobalAlloc, Layout, System};
 use std::collections::BTreeMap;
@@ -148,6 +152,7 @@ struct Ctx {
 	thorough: bool,
 	stats: BTreeMap<String, DStat>,
 	oracle_fails: u64,
+	resize_cases: BTreeMap<String, u64>,
 }
 
 fn err_name(e: &ser::Error) -> String {
@@ -934,6 +939,537 @@ fn payload_streams(cx: &mut Ctx) {
 	}
 }
 
+
+// ---------------------------------------------------------------------------------------------
+// mutation family "consistent resize": a length / count field is changed AND the bytes / items it
+// announces are inserted or removed, so the object stays self-consistent and the reader does not
+// simply run into the end of the input
+
+fn u64_at(b: &[u8], i: usize) -> u64 {
+	let mut a = [0u8; 8];
+	a.copy_from_slice(&b[i..i + 8]);
+	u64::from_be_bytes(a)
+}
+
+/// new lengths tried for a field of length `l`: L±1, L+2, 2L, L+100, 10 000, 100 000, and just above the
+/// reader caps (675 range proof, 100 000 `read_fixed_bytes`)
+fn resize_targets(l: u64, big: bool) -> Vec<u64> {
+	let mut v = vec![l.saturating_sub(1), l + 1, l + 2, 2 * l, l + 100, 674, 675, 676, 677];
+	if big {
+		v.extend_from_slice(&[10_000, 99_999, 100_000, 100_001]);
+	}
+	v.sort_unstable();
+	v.dedup();
+	v.retain(|x| *x != l);
+	v
+}
+
+/// every 8-byte big-endian field whose value equals (is covered by) a run of bytes that really
+/// follows it is treated as a length prefix: resize it together with its payload
+fn resize_u64_fields(rng: &mut Rng, base: &[u8], max_big_fields: usize) -> Vec<Vec<u8>> {
+	let n = base.len();
+	let mut out = vec![];
+	let mut fields = 0;
+	let mut i = 0;
+	while i + 8 <= n {
+		let l = u64_at(base, i);
+		if l >= 1 && l <= 200_000 && i + 8 + l as usize <= n {
+			fields += 1;
+			for t in resize_targets(l, fields <= max_big_fields) {
+				let mut m = base[..i].to_vec();
+				m.extend_from_slice(&t.to_be_bytes());
+				let payload = &base[i + 8..i + 8 + l as usize];
+				if t <= l {
+					m.extend_from_slice(&payload[..t as usize]);
+				} else {
+					m.extend_from_slice(payload);
+					m.extend_from_slice(&rng.bytes((t - l) as usize));
+				}
+				m.extend_from_slice(&base[i + 8 + l as usize..]);
+				out.push(m);
+			}
+			// skip past the field itself (its payload may contain further fields)
+			i += 8;
+		} else {
+			i += 1;
+		}
+	}
+	out
+}
+
+/// `prefix ++ three u64 counts ++ three sections of items` (transaction body, compact block body)
+#[derive(Clone)]
+struct Parts {
+	prefix: Vec<u8>,
+	secs: [Vec<Vec<u8>>; 3],
+}
+impl Parts {
+	fn bytes(&self) -> Vec<u8> {
+		let mut b = self.prefix.clone();
+		for s in &self.secs {
+			b.extend_from_slice(&(s.len() as u64).to_be_bytes());
+		}
+		for s in &self.secs {
+			for it in s {
+				b.extend_from_slice(it);
+			}
+		}
+		b
+	}
+	/// counted lists resized consistently: an item dropped / duplicated / the list doubled
+	fn resized(&self) -> Vec<Vec<u8>> {
+		let mut v = vec![];
+		for s in 0..3 {
+			let n = self.secs[s].len();
+			if n == 0 {
+				continue;
+			}
+			let mut q = self.clone();
+			q.secs[s].pop();
+			v.push(q.bytes());
+			for extra in [1usize, 2, n] {
+				let mut q = self.clone();
+				for k in 0..extra {
+					let it = self.secs[s][k % n].clone();
+					q.secs[s].push(it);
+				}
+				v.push(q.bytes());
+			}
+		}
+		v
+	}
+}
+
+fn output_bytes(rng: &mut Rng, plen: u64) -> Vec<u8> {
+	let mut b = vec![rng.below(2) as u8];
+	b.extend_from_slice(&rng.bytes(33));
+	b.extend_from_slice(&be64(plen));
+	b.extend_from_slice(&rng.bytes(plen as usize));
+	b
+}
+
+fn input_bytes(rng: &mut Rng, ver: u32) -> Vec<u8> {
+	let mut b = if ver >= 3 { vec![] } else { vec![rng.below(2) as u8] };
+	b.extend_from_slice(&rng.bytes(33));
+	b
+}
+
+fn body_parts(rng: &mut Rng, ver: u32, prefix: Vec<u8>, ni: usize, no: usize, nk: usize) -> Parts {
+	Parts {
+		prefix,
+		secs: [
+			(0..ni).map(|_| input_bytes(rng, ver)).collect(),
+			(0..no).map(|_| output_bytes(rng, 675)).collect(),
+			(0..nk).map(|_| gen_kernel_bytes(rng, ver)).collect(),
+		],
+	}
+}
+
+/// a header that passes `UntrustedBlockHeader::read` on AutomatedTesting (real cuckatoo-10 solution)
+fn mined_header(rng: &mut Rng) -> BlockHeader {
+	let mut h = BlockHeader {
+		version: HeaderVersion(5),
+		height: 1000 + rng.below(1 << 30),
+		prev_hash: hash32(rng),
+		prev_root: hash32(rng),
+		timestamp: chrono::DateTime::<chrono::Utc>::from_timestamp(1_600_000_000 + rng.below(100_000_000) as i64, 0).unwrap(),
+		output_root: hash32(rng),
+		range_proof_root: hash32(rng),
+		kernel_root: hash32(rng),
+		total_kernel_offset: BlindingFactor::from_slice(&rng.bytes(32)),
+		output_mmr_size: 4,
+		kernel_mmr_size: 3,
+		pow: ProofOfWork {
+			total_difficulty: Difficulty::from_num(rng.below(1 << 40)),
+			secondary_scaling: rng.next() as u32,
+			nonce: rng.next(),
+			proof: Proof { edge_bits: 10, nonces: vec![0; 8] },
+		},
+	};
+	grin_core::pow::pow_size(&mut h, Difficulty::from_num(1), global::proofsize(), global::min_edge_bits()).expect("mine header");
+	h
+}
+
+fn segment_bytes_counts(rng: &mut Rng, leaf: &dyn Fn(&mut Rng) -> Vec<u8>, nh: u64, nl: u64, np: u64) -> Vec<u8> {
+	let mut b = vec![rng.below(14) as u8];
+	b.extend_from_slice(&be64(rng.below(1 << 20)));
+	b.extend_from_slice(&be64(nh));
+	for p in 0..nh {
+		b.extend_from_slice(&be64(2 * p + 1));
+	}
+	for _ in 0..nh {
+		b.extend_from_slice(&rng.bytes(32));
+	}
+	b.extend_from_slice(&be64(nl));
+	for p in 0..nl {
+		b.extend_from_slice(&be64(3 * p + 1));
+	}
+	for _ in 0..nl {
+		b.extend_from_slice(&leaf(rng));
+	}
+	b.extend_from_slice(&be64(np));
+	for _ in 0..np {
+		b.extend_from_slice(&rng.bytes(32));
+	}
+	b
+}
+
+/// a valid `BitmapSegment` encoding: identifier, `n_blocks`, blocks in the three modes, proof
+fn bitmap_segment_bytes(rng: &mut Rng, blocks: &[Vec<u8>], np: u64) -> Vec<u8> {
+	let mut b = vec![9u8];
+	b.extend_from_slice(&be64(rng.below(1000)));
+	b.extend_from_slice(&(blocks.len() as u16).to_be_bytes());
+	for bl in blocks {
+		b.extend_from_slice(bl);
+	}
+	b.extend_from_slice(&be64(np));
+	for _ in 0..np {
+		b.extend_from_slice(&rng.bytes(32));
+	}
+	b
+}
+
+fn bitmap_block_bytes(rng: &mut Rng, n_chunks: u8, mode: u8, entries: u16) -> Vec<u8> {
+	let mut b = vec![n_chunks, mode];
+	if mode == 0 {
+		b.extend_from_slice(&rng.bytes(n_chunks as usize * 128));
+	} else {
+		b.extend_from_slice(&entries.to_be_bytes());
+		let n_bits = (n_chunks as u64 * 1024).max(1);
+		for _ in 0..entries {
+			b.extend_from_slice(&(rng.below(n_bits) as u16).to_be_bytes());
+		}
+	}
+	b
+}
+
+impl Ctx {
+	fn resize_dec<T: Readable + Writeable>(&mut self, d: &str, ver: u32, cases: Vec<Vec<u8>>, k: usize) {
+		*self.resize_cases.entry(d.to_string()).or_insert(0) += cases.len() as u64;
+		for (i, m) in cases.iter().enumerate() {
+			self.dec::<T, _>(d, i % 2 == 0, ver, m, k, canon_w::<T>(ver), false);
+		}
+	}
+	fn resize_bound<T: Readable>(&mut self, d: &str, ver: u32, cases: Vec<Vec<u8>>, k: usize) {
+		*self.resize_cases.entry(d.to_string()).or_insert(0) += cases.len() as u64;
+		for m in cases.iter() {
+			self.bound::<T>(d, ver, m, k);
+		}
+	}
+}
+
+fn consistent_resize_streams(cx: &mut Ctx) {
+	let mut r = Rng::new(cx.rng.next());
+	let big = if cx.thorough { 3 } else { 1 };
+	// ---- native types with a length-prefixed string
+	let hand = sv(
+		&Hand {
+			version: ProtocolVersion(2),
+			capabilities: Capabilities::default(),
+			nonce: 7,
+			genesis: hash32(&mut r),
+			total_difficulty: Difficulty::from_num(5),
+			sender_addr: gen_addr(&mut r),
+			receiver_addr: gen_addr(&mut r),
+			user_agent: "MW/Grin 5.4.0".to_string(),
+		},
+		1,
+	);
+	let cases = resize_u64_fields(&mut r, &hand, big);
+	cx.resize_dec::<Hand>("hand", 1, cases, 100_000 + 4096);
+	let shake = sv(
+		&Shake {
+			version: ProtocolVersion(2),
+			capabilities: Capabilities::default(),
+			genesis: hash32(&mut r),
+			total_difficulty: Difficulty::from_num(5),
+			user_agent: "MW/Grin 5.4.0".to_string(),
+		},
+		1,
+	);
+	let cases = resize_u64_fields(&mut r, &shake, big);
+	cx.resize_dec::<Shake>("shake", 1, cases, 100_000 + 4096);
+	let pe = sv(&PeerError { code: 3, message: "some error text".to_string() }, 1);
+	let cases = resize_u64_fields(&mut r, &pe, big);
+	cx.resize_dec::<PeerError>("peererror", 1, cases, 100_000 + 4096);
+	// ---- counted lists of the native bodies, with the items present
+	let mut cases = vec![];
+	for n in [19u8, 20, 21, 40, 255] {
+		let mut b = vec![n];
+		b.extend_from_slice(&r.bytes(n as usize * 32));
+		cases.push(b);
+	}
+	cx.resize_dec::<Locator>("body:7", 1, cases, 4096);
+	let mut cases = vec![];
+	for n in [1u32, 255, 256, 257, 512] {
+		let mut b = n.to_be_bytes().to_vec();
+		for _ in 0..n {
+			b.extend_from_slice(&sv(&gen_addr(&mut r), 1));
+		}
+		cases.push(b);
+	}
+	cx.resize_dec::<PeerAddrs>("body:6", 1, cases, 8192 + 4096);
+	let mut cases = vec![];
+	for n in [0u64, 1, 63, 64, 65, 200] {
+		let mut b = be64(9).to_vec();
+		b.extend_from_slice(&be64(n));
+		b.extend_from_slice(&r.bytes(n as usize * 32));
+		cases.push(b);
+		// one hash too many / too few for the announced length
+		let mut c = be64(9).to_vec();
+		c.extend_from_slice(&be64(n + 1));
+		c.extend_from_slice(&r.bytes(n as usize * 32));
+		cases.push(c);
+	}
+	cx.resize_dec::<MerkleProof>("merkle", 1, cases, 4096);
+	// ---- segments: hash / leaf / proof lists resized with their items, range proofs resized inside
+	let counts: Vec<(u64, u64, u64)> = vec![(0, 0, 0), (1, 1, 1), (3, 2, 4), (33, 5, 2), (0, 40, 0), (2, 0, 70)];
+	for (nh, nl, np) in counts.iter().copied() {
+		let out_leaf = |r: &mut Rng| {
+			let mut b = vec![r.below(2) as u8];
+			b.extend_from_slice(&r.bytes(33));
+			b
+		};
+		let b = segment_bytes_counts(&mut r, &out_leaf, nh, nl, np);
+		cx.resize_dec::<Segment<OutputIdentifier>>("seg:outid", 1, vec![b], 81920 + 1024 * 40 + 4096);
+		let ver = VERSIONS[(nh as usize + nl as usize) % 4];
+		let b = segment_bytes_counts(&mut r, &|r| gen_kernel_bytes(r, ver), nh, nl, np);
+		cx.resize_dec::<Segment<TxKernel>>("seg:kernel", ver, vec![b], 81920 + 1024 * 128 + 4096);
+		let mut pb = be64(np).to_vec();
+		pb.extend_from_slice(&r.bytes(np as usize * 32));
+		cx.resize_dec::<SegmentProof>("segproof", 1, vec![pb], 32 * 1024 + 4096);
+	}
+	// the pre-allocation caps (1024 items) crossed with the items really present
+	let b = segment_bytes_counts(&mut r, &|r| { let mut b = vec![0u8]; b.extend_from_slice(&r.bytes(33)); b }, 1025, 1025, 1025);
+	cx.resize_dec::<Segment<OutputIdentifier>>("seg:outid", 1, vec![b], 81920 + 1024 * 40 + 4096);
+	// range-proof segment: every proof length around the nominal size and the reader caps, bytes present
+	for plen in [0u64, 1, 674, 675, 676, 677, 775, 1350, 10_000, 99_999, 100_000, 100_001] {
+		for nl in [1u64, 3] {
+			let b = segment_bytes_counts(&mut r, &|r| { let mut b = be64(plen).to_vec(); b.extend_from_slice(&r.bytes(plen as usize)); b }, 2, nl, 1);
+			if b.len() <= 120_000 || nl == 1 {
+				cx.resize_dec::<Segment<RangeProof>>("seg:rproof", 1, vec![b.clone()], 81920 + 1024 * 688 + 4096);
+				// the same bytes behind a block hash: the `RangeProofSegment` response
+				let mut resp = r.bytes(32);
+				resp.extend_from_slice(&b);
+				cx.resize_bound::<SegmentResponse<RangeProof>>("resp:26", 1, vec![resp], 1 << 20);
+			}
+		}
+	}
+	let base = segment_bytes_counts(&mut r, &|r| { let mut b = be64(675).to_vec(); b.extend_from_slice(&r.bytes(675)); b }, 2, 2, 2);
+	let cases = resize_u64_fields(&mut r, &base, big);
+	cx.resize_dec::<Segment<RangeProof>>("seg:rproof", 1, cases, 81920 + 1024 * 688 + 4096);
+	// ---- payload types that embed range proofs, kernels, the proof-of-work array, bitmap blocks
+	let k = 1 << 20;
+	for plen in [0u64, 1, 674, 675, 676, 677, 775, 1350, 10_000, 99_999, 100_000, 100_001] {
+		let b = output_bytes(&mut r, plen);
+		cx.resize_bound::<Output>("output", 1, vec![b], k);
+	}
+	let header = mined_header(&mut r);
+	for v in VERSIONS {
+		let hb = sv(&header, v);
+		// header alone: the packed nonce array resized together with `edge_bits`
+		let tail = 1 + 10; // edge_bits + pack_len(10 bits x 8 nonces)
+		let mut cases = vec![hb.clone()];
+		for eb in [0u8, 1, 7, 8, 9, 10, 11, 29, 31, 32, 62, 63, 64, 255] {
+			for delta in [-1i64, 0, 1] {
+				let mut m = hb[..hb.len() - tail].to_vec();
+				m.push(eb);
+				let want = ((eb as i64 * 8 + 7) / 8 + delta).max(0) as usize;
+				m.extend_from_slice(&r.bytes(want));
+				cases.push(m);
+			}
+		}
+		cx.resize_bound::<UntrustedBlockHeader>("header", v, cases, k);
+		// transaction / block / compact block bodies
+		for (ni, no, nk) in [(1usize, 1usize, 1usize), (2, 3, 2), (0, 1, 1), (3, 11, 1)] {
+			let offset = r.bytes(32);
+			let tx = body_parts(&mut r, v, offset, ni, no, nk);
+			let mut cases = vec![tx.bytes()];
+			cases.extend(tx.resized());
+			cases.extend(resize_u64_fields(&mut r, &tx.bytes(), big));
+			cx.resize_bound::<Transaction>("tx", v, cases, k);
+			let blk = body_parts(&mut r, v, hb.clone(), ni, no, nk);
+			let mut cases = vec![blk.bytes()];
+			cases.extend(blk.resized());
+			// only the fields of the body (the header is fixed-size): skip the prefix when locating fields
+			let bb = blk.bytes();
+			for m in resize_u64_fields(&mut r, &bb[hb.len()..], big) {
+				let mut x = hb.clone();
+				x.extend_from_slice(&m);
+				cases.push(x);
+			}
+			cx.resize_bound::<UntrustedBlock>("block", v, cases, k);
+			let mut prefix = hb.clone();
+			prefix.extend_from_slice(&be64(r.next()));
+			let cb = Parts {
+				prefix: prefix.clone(),
+				secs: [
+					(0..no.min(3)).map(|_| output_bytes(&mut r, 675)).collect(),
+					(0..nk).map(|_| gen_kernel_bytes(&mut r, v)).collect(),
+					(0..ni + 2).map(|_| r.bytes(6)).collect(),
+				],
+			};
+			let mut cases = vec![cb.bytes()];
+			cases.extend(cb.resized());
+			let cbb = cb.bytes();
+			for m in resize_u64_fields(&mut r, &cbb[prefix.len()..], big) {
+				let mut x = prefix.clone();
+				x.extend_from_slice(&m);
+				cases.push(x);
+			}
+			cx.resize_bound::<UntrustedCompactBlock>("cblock", v, cases, k);
+		}
+	}
+	// bitmap segments: block lists and the entry lists inside the blocks resized with their items
+	let mut cases = vec![];
+	for (n_chunks, mode, entries) in [(3u8, 0u8, 0u16), (64, 0, 0), (64, 1, 5), (10, 2, 300), (1, 1, 0), (65, 0, 0), (0, 1, 0), (64, 1, 65535)] {
+		let bl = bitmap_block_bytes(&mut r, n_chunks, mode, entries);
+		for nb in [1usize, 2, 3] {
+			let mut blocks: Vec<Vec<u8>> = (0..nb - 1).map(|_| bitmap_block_bytes(&mut r, 64, 0, 0)).collect();
+			blocks.push(bl.clone());
+			for np in [0u64, 2, 1025] {
+				cases.push(bitmap_segment_bytes(&mut r, &blocks, np));
+			}
+		}
+		// entry count one more / one less than the entries present
+		if mode != 0 && entries > 0 && entries < 65535 {
+			for d in [entries - 1, entries + 1] {
+				let mut b2 = bl.clone();
+				b2[2..4].copy_from_slice(&d.to_be_bytes());
+				cases.push(bitmap_segment_bytes(&mut r, &[b2], 1));
+			}
+		}
+	}
+	cx.resize_bound::<BitmapSegment>("bitmapseg", 1, cases.clone(), k);
+	let resp: Vec<Vec<u8>> = cases
+		.iter()
+		.map(|c| {
+			let mut x = r.bytes(32);
+			x.extend_from_slice(c);
+			x.extend_from_slice(&r.bytes(32));
+			x
+		})
+		.collect();
+	cx.resize_bound::<OutputBitmapSegmentResponse>("resp:22", 1, resp, k);
+	let rc = std::mem::take(&mut cx.resize_cases);
+	let parts: Vec<String> = rc.iter().map(|(d, n)| format!("{}={}", d, n)).collect();
+	cx.out.raw(&format!("#STAT consistent-resize cases per decoder: {}", parts.join(" ")));
+}
+
+// ---------------------------------------------------------------------------------------------
+// unknown message types with announced lengths around and far above the limit: the refusal must
+// happen at the header, on the handshake path (`read_header`, `read_message` -> `read_discard`) and in
+// the real `Codec`, without the announced length ever reaching the allocator
+
+fn unknown_type_oracle(cx: &mut Ctx) {
+	let dmax: u64 = global::max_block_weight() / 21 * 708;
+	let lens: Vec<u64> = vec![4 * dmax - 1, 4 * dmax, 4 * dmax + 1, 4 * dmax + 2, 1 << 28, 1 << 40, 1 << 63, u64::MAX];
+	let mut cases = 0u64;
+	let types: Vec<u8> = if cx.thorough { (29..=255).collect() } else { (29..=255).step_by(1).collect() };
+	for t in types {
+		let mut over = false;
+		for &len in &lens {
+			if over {
+				break; // an over-allocation was already reported for this type: do not go for the abort
+			}
+			let mut w = vec![73u8, 43, t];
+			w.extend_from_slice(&be64(len));
+			let must_refuse = len > 4 * dmax;
+			cases += 1;
+			// (a) read_header
+			let w1 = w.clone();
+			let (r, maxreq) = measured(move || grin_p2p::msg::read_header(&mut &w1[..], ProtocolVersion(1)).map(|_| ()).map_err(|e| format!("{:?}", e)));
+			let refused = matches!(&r, Ok(Err(e)) if e.contains("TooLargeReadErr"));
+			if let Err(p) = &r {
+				cx.oracle_fails += 1;
+				over = true;
+				cx.out.raw(&format!("#ORACLE-FAIL C11 panic {} in read_header for an 11-byte input (unknown type {}, announced len {}): {}", p.replace('\n', " "), t, len, hex(&w)));
+			} else if must_refuse && !refused {
+				cx.oracle_fails += 1;
+				cx.out.raw(&format!("#ORACLE-FAIL C11 read_header accepts unknown type {} with announced len {} above the limit {}: {}", t, len, 4 * dmax, hex(&w)));
+			}
+			if maxreq > 4096 {
+				cx.oracle_fails += 1;
+				over = true;
+				cx.out.raw(&format!("#ORACLE-FAIL C11 over-allocation: {} bytes requested for an 11-byte input in read_header (unknown type {}, announced len {}): {}", maxreq, t, len, hex(&w)));
+			}
+			// (b) read_message (handshake): header, then `read_discard(msg_len)` for an unknown type
+			let w2 = w.clone();
+			let (r, maxreq) = measured(move || {
+				grin_p2p::msg::read_message::<Hand, _>(&mut &w2[..], ProtocolVersion(1), Type::Hand).map(|_| ()).map_err(|e| format!("{:?}", e))
+			});
+			let limit = if must_refuse { 4096 } else { 4 * dmax as usize + 4096 };
+			match &r {
+				Err(p) => {
+					cx.oracle_fails += 1;
+					over = true;
+					cx.out.raw(&format!("#ORACLE-FAIL C11 panic {} in read_message for an 11-byte input (unknown type {}, announced len {}): {}", p.replace('\n', " "), t, len, hex(&w)));
+				}
+				Ok(_) if maxreq > limit => {
+					cx.oracle_fails += 1;
+					over = true;
+					cx.out.raw(&format!("#ORACLE-FAIL C11 over-allocation: {} bytes requested for an 11-byte input in read_message/read_discard (unknown type {}, announced len {}): {}", maxreq, t, len, hex(&w)));
+				}
+				_ => {}
+			}
+			let cls = match &r {
+				Ok(Ok(())) => "ok".to_string(),
+				Ok(Err(e)) if e.contains("TooLargeReadErr") => "err Ser:TooLargeReadErr".to_string(),
+				Ok(Err(e)) if e.contains("BadMessage") => "err BadMessage".to_string(),
+				Ok(Err(e)) if e.contains("Connection") => "err Connection".to_string(),
+				Ok(Err(e)) if e.contains("Serialization") => "err Ser:Other".to_string(),
+				Ok(Err(_)) => "err Other".to_string(),
+				Err(_) => "panic".to_string(),
+			};
+			cx.out.line(&format!("codec rmsg hand {}", hex(&w)), &format!("{} {}", cls, maxreq));
+			// (c) the real Codec over loopback (a sample of the type bytes: one connection per case)
+			if !over && (t % 16 == 13 || t == 255 || cx.thorough) {
+				let listener = std::net::TcpListener::bind("127.0.0.1:0").unwrap();
+				let addr = listener.local_addr().unwrap();
+				let w3 = w.clone();
+				let th = std::thread::spawn(move || {
+					let mut s = std::net::TcpStream::connect(addr).unwrap();
+					let _ = s.write_all(&w3);
+					let _ = s.shutdown(std::net::Shutdown::Write);
+					let mut sink = [0u8; 8];
+					let _ = std::io::Read::read(&mut s, &mut sink);
+				});
+				let (stream, _) = listener.accept().unwrap();
+				let mut codec = Codec::new(ProtocolVersion(1), stream);
+				MAX_REQ.store(0, Ordering::Relaxed);
+				let res = catch(std::panic::AssertUnwindSafe(|| {
+					let (r, n) = codec.read();
+					(r.map(|_| ()).map_err(|e| format!("{:?}", e)), n)
+				}));
+				let maxreq = MAX_REQ.load(Ordering::Relaxed);
+				let limit = if must_refuse { 65536 } else { 2 * (4 * dmax as usize) + 65536 };
+				match &res {
+					Err(p) => {
+						cx.oracle_fails += 1;
+						over = true;
+						cx.out.raw(&format!("#ORACLE-FAIL C11 panic {} in Codec::read for an 11-byte input (unknown type {}, announced len {}): {}", p.replace('\n', " "), t, len, hex(&w)));
+					}
+					Ok((r, n)) => {
+						if maxreq > limit {
+							cx.oracle_fails += 1;
+							over = true;
+							cx.out.raw(&format!("#ORACLE-FAIL C11 over-allocation: {} bytes requested for an 11-byte input in Codec::read (unknown type {}, announced len {}): {}", maxreq, t, len, hex(&w)));
+						}
+						let refused = matches!(r, Err(e) if e.contains("TooLargeReadErr"));
+						if must_refuse && (!refused || *n != 11) {
+							cx.oracle_fails += 1;
+							cx.out.raw(&format!("#ORACLE-FAIL C11 Codec::read does not refuse unknown type {} with announced len {} at the header (result {:?}, {} bytes read): {}", t, len, r, n, hex(&w)));
+						}
+					}
+				}
+				let _ = codec.stream().shutdown(std::net::Shutdown::Both);
+				let _ = th.join();
+			}
+		}
+	}
+	cx.out.raw(&format!("#STAT unknown-type over-limit oracle: {} (type byte, announced length) cases through read_header, read_message and a sample through the real Codec", cases));
+}
+
 // ---------------------------------------------------------------------------------------------
 // regression probes: the witnesses of the defects repaired in /repo (fixed: entries of known_findings.json)
 
@@ -1019,6 +1555,7 @@ fn child_main(mode: &str) {
 		thorough: tier_thorough(),
 		stats: BTreeMap::new(),
 		oracle_fails: 0,
+		resize_cases: BTreeMap::new(),
 	};
 	match mode {
 		"main" => {
@@ -1028,6 +1565,8 @@ fn child_main(mode: &str) {
 			merkle_stream(&mut cx);
 			hex_streams(&mut cx);
 			payload_streams(&mut cx);
+			consistent_resize_streams(&mut cx);
+			unknown_type_oracle(&mut cx);
 			probe_in_process(&mut cx);
 		}
 		_ => {}
